@@ -7,7 +7,7 @@ Block spec (plain data):
   supply    list of family type names supplied directly                       (default ["A"])
   disp      list of {"enter": E, "exit": E, "yields": "none"|"one"|"two"}     (ascope only)
             E in "ok" | "raise" | "susp_ok" | "susp_raise"
-  spawns    list of {"kind": "ret"|"raise"|"grand", "pauses": k, "via": None|"sscope"|"updated"}
+  spawns    list of {"kind": "ret"|"raise"|"raise_base"|"grand"|..., "pauses": k, "via": None|"sscope"|"updated"}
   pause     bool - the body suspends once after spawning (a point where events can land)
   child     nested block or None
   ending    "return" | "raise" | "raise_base"
@@ -17,7 +17,7 @@ import asyncio
 import logging
 import re
 
-from hv import boot  # noqa: F401
+from hv import boot, core  # noqa: F401
 from hv.ctxkit import FAMILY, Capture, expected_state, make_states, probe_state
 from hv.vloop import Livelock
 from hv.world import Chooser, World
@@ -52,6 +52,10 @@ class BodyBadStr(BodyErr):
 
 class SpawnErr(Exception):
     pass
+
+
+class SpawnBase(BaseException):
+    """a spawned task failing with a BaseException that is not an Exception"""
 
 
 class DispErr(Exception):
@@ -442,11 +446,11 @@ class Run:
                         self.queue_seen.append(item)
                 for k in range(sp.get("pauses", 0)):
                     await self.w.pause(f"{name}.p{k}")
-                if sp["kind"] == "raise":
+                if sp["kind"] in ("raise", "raise_base"):
                     rec["end"] = "raise"
                     rec["end_at"] = len(self.w.trace)
                     rec["end_phase"] = tuple(self.phase)
-                    raise SpawnErr(name)
+                    raise SpawnErr(name) if sp["kind"] == "raise" else SpawnBase(name)
                 rec["end"] = "ret"
             except asyncio.CancelledError:
                 rec["end"] = "cancelled"
@@ -498,6 +502,16 @@ class Run:
         if owner is not None:
             self.spawned.setdefault(owner, []).append(rec)
         self.all_spawned.append(rec)
+
+    def library_errors(self) -> list[dict]:
+        """exceptions handed to the caller of a block that a line of the library itself raised by
+        tripping over its own data (IndexError, TypeError ...) - never an allowed outcome"""
+        out = []
+        for bid, exc in sorted(self.caught.items()):
+            hit = core.raised_in_library(exc)
+            if hit:
+                out.append(core.viol("unexpected-exception", hit, "the block ends with its body's / its disposables' / a cancellation's exception", f"b{bid}: {core.scrub(repr(exc))[:160]}"))
+        return out[:2]
 
     # -- driving ----------------------------------------------------------------------------
     def execute(self) -> None:
